@@ -1,9 +1,61 @@
 (* Props_C02.v — property C02: theorem statements only. *)
-From Verif Require Import Base Sem Where_Model.
+From Verif Require Import Base Sem Where_Model Where_Proofs Where_Render Where_Sem C09_Proofs Where_Spec.
 
-(* The grammar the WHERE text is read with: printing a well-formed condition tree with the
-   minimal-parenthesis printer and parsing it back under SQL precedence (NOT > AND > OR) yields
-   the same tree, for trees of any size and nesting depth. *)
-Theorem c02_parse_print : forall e, wfE e = true -> exists n, pE n (prE e) = Some (e, []).
-Proof. exact parse_print. Qed.
+(* The grammar the WHERE text is read with (SQL precedence NOT > AND > OR): printing a
+   well-formed condition tree with the minimal-parenthesis printer and parsing it back yields the
+   same tree, for trees of any size and nesting depth, with the parser's concrete fuel; and the
+   parser only accepts what prints back to its input. *)
+Theorem c02_parse_print : forall e, wfE e = true -> parse (prE e) = Some e.
+Proof. exact parse_complete. Qed.
 Print Assumptions c02_parse_print.
+
+Theorem c02_print_parse : forall ts e, parse ts = Some e -> ts = prE e /\ wfE e = true.
+Proof. exact parse_sound. Qed.
+Print Assumptions c02_print_parse.
+
+(* Every clause expression gorm can build (any nesting of And/Or/Not conditions over structured
+   conditions and raw SQL), whenever each expression combined with others is parenthesised by
+   gorm or is a single factor ([okx]), renders to exactly the printing of the explicit tree
+   [toE]: no operand can be regrouped by precedence. *)
+Theorem c02_render_is_print : forall x, okx x = true -> render x = prE (toE x) /\ wfE (toE x) = true.
+Proof. exact render_is_print. Qed.
+Print Assumptions c02_render_is_print.
+
+Theorem c02_where_parses : forall exprs, ok_where exprs = true ->
+  parse (where_tokens exprs) = Some (toE_where exprs).
+Proof. exact where_parses. Qed.
+Print Assumptions c02_where_parses.
+
+(* MAIN.  For every chain of Where / Not / Or calls of any length, over units of any form in the
+   domain [calls_domx] — raw strings and named-argument strings that gorm parenthesises or that
+   are single factors, maps, structs, single structured conditions, and groups db.Where(db...)
+   of such units nested to any depth (Not applied to flat units; groups and chains not starting
+   with Or) — the WHERE text gorm renders parses under SQL precedence, and for EVERY row
+   valuation its Kleene value equals the value of the specification: the units' meanings
+   combined left to right with AND (Where, Not) and OR (Or) under SQL precedence, Not reading a
+   multi-member map/struct as "every member false" and anything else as a whole.
+   [neg_pairs_ok]: the atoms gorm renders for negated structured conditions (<>, NOT IN,
+   IS NOT NULL ...) are the Kleene negations of the positive atoms (checked per case on SQLite's
+   truth tables). *)
+Theorem c02_where_semantics : forall v tbl cs exprs s,
+  calls_domx tbl cs = true -> neg_pairs_ok v (calls_pairs cs) ->
+  build_chain tbl cs = Some exprs -> spec_chain tbl cs = Some s ->
+  match exprs with e :: _ => is_single_or e = false | [] => True end ->
+  exprs <> [] ->
+  ok_where exprs = true /\
+  forall E, parse (where_tokens exprs) = Some E -> evE v E = sev v s.
+Proof. exact chain_semantics. Qed.
+Print Assumptions c02_where_semantics.
+
+(* non-vacuity: Where(raw OR with a tab) . Not(map with two keys) . Or(group of Where.Or) *)
+Example c02_instance :
+  let tbl := [(1, ["a = 1"%string]); (2, ["b = 2"%string]); (3, ["c"%string]); (4, ["d"%string]);
+              (53, ["c <> x"%string]); (54, ["d <> x"%string])] in
+  let tab := String (Ascii.ascii_of_nat 9) EmptyString in
+  let cs := [(KWhere, URaw ("a = 1 or" ++ tab ++ "b = 2") ("a = 1 or" ++ tab ++ "b = 2"));
+             (KNot, UMap [(3, 53); (4, 54)]);
+             (KOr, UGroup [(KWhere, UMap [(3, 53)]); (KOr, URaw "b = 2" "b = 2")])]%string in
+  calls_domx tbl cs = true /\
+  (exists exprs, build_chain tbl cs = Some exprs /\ exprs <> [] /\ ok_where exprs = true) /\
+  (exists s, spec_chain tbl cs = Some s).
+Proof. cbv zeta. split; [vm_compute; reflexivity|]. split; eexists; [split; [vm_compute; reflexivity|split; [discriminate|vm_compute; reflexivity]]|vm_compute; reflexivity]. Qed.
